@@ -117,6 +117,18 @@ def norm(r):
     return repr(r)
 
 
+def saturate(flush=False):
+    """Sanitizer runs only.  CPython parks released dictionaries on free lists, where AddressSanitizer cannot see a
+    later write through a dangling pointer.  Before a mutation the free lists are filled (so that what the library
+    releases next goes back to malloc and is poisoned); after it a full collection empties them
+    (`clear_freelists` in gc_collect_main), which really frees whatever was parked meanwhile."""
+    a = [dict(a=1) for _ in range(120)]
+    b = [{} for _ in range(120)]
+    del a, b
+    if flush:
+        gc.collect()
+
+
 # --------------------------------------------------------------------------
 # Part A
 # --------------------------------------------------------------------------
@@ -134,6 +146,7 @@ def execute_reenter(program, ctx, mode):
     import weakref as _weakref
     import os as _os
     is_c = _os.environ.get('ZISIM_IMPL', 'c') == 'c'
+    asan = bool(mode.get('asan'))        # sanitizer replay: no pins (a pinned dictionary is never freed), no audit
     serial = [0]
 
     def run_case(case, repeat_check=False):
@@ -152,6 +165,13 @@ def execute_reenter(program, ctx, mode):
             armed[0] = False
             fired[0] += 1
             lk = audit['lookup']
+            if asan:
+                saturate()
+                try:
+                    do_action()
+                finally:
+                    saturate(flush=True)
+                return
             if lk is not None:
                 pin(lk)
             try:
@@ -843,11 +863,15 @@ def execute_threads(program, ctx, mode):
         def run(tid):
             for m in ops:
                 inv = stamp()
+                if mode.get('asan'):
+                    saturate()
                 try:
                     apply(B, S, m, True)
                     exc = None
                 except Exception as e:     # noqa
                     exc = e
+                if mode.get('asan'):
+                    saturate(flush=True)
                 mut_records.append((inv, stamp(), m, exc))
         return run
     zdir = os.path.dirname(os.path.abspath(zope.interface.__file__))
